@@ -41,6 +41,7 @@ fn replay(prop: &str, file: &str) -> i32 {
             "long-captures" => props_capture::replay_long_captures(&case),
             "total" => props_total::replay_total(&case),
             "combinator" => props_total::replay_combinator(&case),
+            "combinator-law" => props_total::replay_combinator_law(&case),
             "spans" => props_total::replay_spans(&case),
             "walk" => props_fs::replay_walk(&case, prop),
             "anchor" => props_fs::replay_anchor(&case),
